@@ -37,7 +37,7 @@ CONSTANTS Devs,      \* deviations switched on in the model-checking run
           Gen        \* TRUE: print the case list (one ROW line per term)
 
 AllDevs == {"EnchAlways5", "QueueDropsEnh", "TempOverride", "Mangle128", "UnspecRealign",
-            "PipelineRejectEnh"}
+            "PipelineRejectEnh", "MilterCopiesAnyCode"}
 
 NotSet == <<0, 0, 0>>       \* smtp.EnhancedCodeNotSet: go-smtp sends X.0.0
 
@@ -275,6 +275,8 @@ HelperSpace == [codeT : {450, 451}, codeP : {550, 554}, base : {<<0, 4, 0>>, <<0
 (* produced is [code, enh, temp] (temp = exterrors.IsTemporary of the error)  *)
 
 CompCoherent(o) == LitCoherent(o.code, o.enh) /\ (o.temp <=> Class(o.code) = 4)
+\* a path that did not fail reports no failure at all
+CompOK(o) == o.failed => CompCoherent(o)
 
 \* "reject [code [enh [msg]]]": args = sequence of the given code / enhanced code
 RejectRule(D, site, args) ==
@@ -284,23 +286,42 @@ RejectRule(D, site, args) ==
               ELSE <<Class(code), 7, 0>>
   IN [code |-> code, enh |-> enh, temp |-> Class(code) = 4]
 
-CompRule(D, c) ==
+CompRule0(D, c) ==
   CASE c.site = "dmarc-reject" ->           \* msgpipeline applyResults, policy reject
          IF c.in.verdict = "temperror" THEN [code |-> 450, enh |-> <<4, 7, 1>>, temp |-> TRUE]
          ELSE [code |-> 550, enh |-> <<5, 7, 1>>, temp |-> FALSE]
     [] c.site \in {"pipeline-reject", "failaction-reject"} -> RejectRule(D, c.site, c.in.args)
-    [] c.site = "milter-replycode" ->
-         [code |-> c.in.code, enh |-> <<Class(c.in.code), 7, 1>>, temp |-> Class(c.in.code) = 4]
+    \* check.milter, reply-code action (SMFIR_REPLYCODE).  Only 4yz/5yz is a refusal the
+    \* protocol allows; anything else is a protocol error of the milter, handled like an
+    \* I/O error: fail_open lets the message pass, otherwise 451 4.7.1.  The text (and any
+    \* enhanced code in it) the milter sends is not used.
+    \* milter-replycode: the conversion alone (fail_open off); milter-wire: the real check
+    \* in a real pipeline talking to a scripted milter, reply as it reaches the client
+    [] c.site \in {"milter-replycode", "milter-wire"} ->
+         LET cl == Class(c.in.code)
+             fo == c.site = "milter-wire" /\ c.in.fo
+         IN IF cl \in {4, 5} \/ "MilterCopiesAnyCode" \in D
+            THEN [failed |-> TRUE, code |-> c.in.code, enh |-> <<cl, 7, 1>>, temp |-> cl = 4]
+            ELSE IF fo THEN [failed |-> FALSE, code |-> 0, enh |-> NotSet, temp |-> FALSE]
+            ELSE [failed |-> TRUE, code |-> 451, enh |-> <<4, 7, 1>>, temp |-> TRUE]
     [] c.site = "smtpconn-reply" ->         \* a peer's reply passed on; 552 becomes 452 (RFC 5321 4.5.3.1.10)
          IF c.in.code = 552 THEN [code |-> 452, enh |-> <<4, c.in.enh[2], c.in.enh[3]>>, temp |-> TRUE]
          ELSE [code |-> c.in.code, enh |-> c.in.enh, temp |-> Class(c.in.code) = 4]
 
+\* failed = the path ended in an error (every site but a fail_open milter always does)
+CompRule(D, c) == LET r == CompRule0(D, c) IN
+                  IF "failed" \in DOMAIN r THEN r ELSE r @@ [failed |-> TRUE]
+
 RejectArgs == {<<>>} \cup {<<c>> : c \in {450, 451, 521, 550, 554}}
               \cup {<<450, <<4, 7, 1>>>>, <<550, <<5, 1, 1>>>>}
+\* every class of reply code a milter can put on the wire, and garbage
+MilterCodes == {250, 354, 450, 451, 550, 554, 0, 999}
 CompSpace ==
   {[site |-> "dmarc-reject", in |-> [verdict |-> v]] : v \in {"fail", "temperror"}}
   \cup {[site |-> s, in |-> [args |-> a]] : s \in {"pipeline-reject", "failaction-reject"}, a \in RejectArgs}
-  \cup {[site |-> "milter-replycode", in |-> [code |-> c]] : c \in {450, 451, 550, 554}}
+  \cup {[site |-> "milter-replycode", in |-> [code |-> c]] : c \in MilterCodes}
+  \cup {[site |-> "milter-wire", in |-> [code |-> c, fo |-> f, enh |-> e, stage |-> g]] :
+          c \in MilterCodes, f \in BOOLEAN, e \in {"none", "same", "other"}, g \in {"mail", "eob"}}
   \cup {[site |-> "smtpconn-reply", in |-> [code |-> r[1], enh |-> r[2]]] :
           r \in {<<450, <<4, 2, 0>>>>, <<550, <<5, 1, 1>>>>, <<552, <<5, 3, 4>>>>, <<552, NotSet>>, <<421, NotSet>>}}
 
@@ -377,7 +398,7 @@ Coherent == Prop(term, Rule(Devs, term, TRUE))
 Emit == Gen => PrintT(<<"ROW", ToJson(term)>>)
 HelpersCoherent == /\ \A h \in HelperSpace :
                         LET o == HelperRule(Devs, h) IN LitCoherent(o.code, o.enh)
-                   /\ \A c \in CompSpace : CompCoherent(CompRule(Devs, c))
+                   /\ \A c \in CompSpace : CompOK(CompRule(Devs, c))
                    /\ \A h \in HistSpace : HistViol(h, HistRule(Devs, h)) = {}
                    /\ \A a \in AuthSpace : AuthViol(a, AuthRule(Devs, a)) = {}
 \* the case list of the computed replies
